@@ -14,7 +14,15 @@ BINARY_TT = ["bracket", "inner"]
 UNARY_G = ["log", "inverse", "adj", "transform", "rotation"]
 BINARY_GG = ["compose", "between", "rminus", "lminus"]
 BINARY_GT = ["rplus", "lplus"]
-MASKS = {"exp": 2, "log": 2, "inverse": 2, "compose": 4, "between": 4, "rminus": 4, "lminus": 4,
+ALIAS_GT = ["plus", "op+", "op+=", "t+X", "t.plus", "t.lplus", "t.rplus", "f_rplus", "f_lplus", "f_plus"]
+ALIAS_GG = ["minus", "op-", "op*", "op*=", "f_rminus", "f_lminus", "f_minus", "f_compose", "f_between"]
+ALIAS_G = ["f_inverse", "f_log"]
+ALIAS_T = ["f_exp"]
+ALIASES = ALIAS_GT + ALIAS_GG + ALIAS_G + ALIAS_T + ["f_act"]
+MUTATING = ("op+=", "op*=")
+MASKS = {"plus": 4, "t.plus": 4, "t.lplus": 4, "t.rplus": 4, "f_rplus": 4, "f_lplus": 4, "f_plus": 4,
+         "minus": 4, "f_rminus": 4, "f_lminus": 4, "f_minus": 4, "f_compose": 4, "f_between": 4,
+         "f_inverse": 2, "f_log": 2, "f_exp": 2, "f_act": 4,"exp": 2, "log": 2, "inverse": 2, "compose": 4, "between": 4, "rminus": 4, "lminus": 4,
          "rplus": 4, "lplus": 4, "act": 4}
 NO_ROTATION = ("R1", "R2", "R3", "R5")
 
@@ -45,11 +53,13 @@ def requests_for(r, group, n, dbg, storages=("o",), norm="valid", ops=None):
                 a = [r.choice([0.0, 1.0, -2.5, r.uniform(-10, 10)]) for _ in range(m * m)]
                 out.append((gen.req(dbg, st, group, op, 0, a), [op, "mask0", st, "alg:generic"]))
                 continue
-            if op in UNARY_T:
+            if op in MUTATING and st == "c":
+                st = "m"
+            if op in UNARY_T or op in ALIAS_T:
                 a, tags = gen.tangent(r, group)
-            elif op in UNARY_G:
+            elif op in UNARY_G or op in ALIAS_G:
                 a, tags = gen.element(r, group, norm=norm)
-            elif op in BINARY_GG:
+            elif op in BINARY_GG or op in ALIAS_GG:
                 a1, t1 = gen.element(r, group, norm=norm)
                 a2, t2 = gen.element(r, group, norm=norm)
                 if r.random() < 0.3:     # nearby pair: relative transform small
@@ -60,7 +70,7 @@ def requests_for(r, group, n, dbg, storages=("o",), norm="valid", ops=None):
                 a1, t1 = gen.tangent(r, group)
                 a2, t2 = gen.tangent(r, group)
                 a, tags = a1 + a2, t1 + t2
-            elif op in BINARY_GT:
+            elif op in BINARY_GT or op in ALIAS_GT:
                 a1, t1 = gen.element(r, group, norm=norm)
                 a2, t2 = gen.tangent(r, group)
                 a, tags = a1 + a2, t1 + t2
@@ -89,10 +99,19 @@ TOL_CELLS = {("SE_2_3", "lplus"), ("SE_2_3", "lminus"), ("SGal3", "lplus"), ("SG
 TOL_REL = 1e-12
 
 
+CANON = {"plus": "rplus", "op+": "rplus", "op+=": "rplus", "minus": "rminus", "op-": "rminus", "op*": "compose",
+         "op*=": "compose", "t+X": "lplus", "t.plus": "lplus", "t.lplus": "lplus", "t.rplus": "rplus",
+         "f_rplus": "rplus", "f_lplus": "lplus", "f_plus": "rplus", "f_rminus": "rminus", "f_lminus": "lminus",
+         "f_minus": "rminus", "f_compose": "compose", "f_between": "between", "f_inverse": "inverse",
+         "f_log": "log", "f_exp": "exp", "f_act": "act"}
+
+
 def compare(impl, model, cell=None):
     """-> (equal?, description)"""
     if impl == model:
         return True, ""
+    if cell is not None:
+        cell = (cell[0], CANON.get(cell[1], cell[1]))
     if cell in TOL_CELLS:
         ti, tm = impl.split(), model.split()
         if ti[:1] == tm[:1] == ["ok"] and len(ti) == len(tm):
